@@ -1136,9 +1136,6 @@ class Converter(BaseConverter):
                 has_with_generic, self.gen_structure_attrs_fromdict
             )
         self.register_unstructure_hook_factory(
-            is_annotated, self.gen_unstructure_annotated
-        )
-        self.register_unstructure_hook_factory(
             is_hetero_tuple, self.gen_unstructure_hetero_tuple
         )
         self.register_unstructure_hook_factory(is_namedtuple)(
@@ -1167,7 +1164,6 @@ class Converter(BaseConverter):
             lambda t: self.get_unstructure_hook(get_newtype_base(t)),
         )
 
-        self.register_structure_hook_factory(is_annotated, self.gen_structure_annotated)
         self.register_structure_hook_factory(is_mapping, self.gen_structure_mapping)
         self.register_structure_hook_factory(is_counter, self.gen_structure_counter)
         self.register_structure_hook_factory(
@@ -1177,6 +1173,13 @@ class Converter(BaseConverter):
         self.register_structure_hook_factory(
             lambda t: get_newtype_base(t) is not None, self.get_structure_newtype
         )
+
+        # `Annotated` is registered last so it is unwrapped before any of the
+        # predicates above get to look through it at the annotated type.
+        self.register_unstructure_hook_factory(
+            is_annotated, self.gen_unstructure_annotated
+        )
+        self.register_structure_hook_factory(is_annotated, self.gen_structure_annotated)
 
         # We keep these so we can more correctly copy the hooks.
         self._struct_copy_skip = self._structure_func.get_num_fns()
